@@ -2059,6 +2059,10 @@ Remove identical patterns/sites and return number of occurence
 func (a *align) Compress() (weights []int) {
 	var count interface{}
 	var ok bool
+	// An alignment without sequences has no site to compress: it stays empty (length -1)
+	if a.NbSequences() == 0 {
+		return make([]int, 0)
+	}
 	r := radix.New()
 	npat := 0
 	// We add new patterns if not already insterted in the radix tree
